@@ -397,8 +397,6 @@ def gen_findif(repo):
     g.define("chunk_begin_it", DI, ex("chunk_begin_it"), extra_scope=it_scope, comment="auto chunk_begin_it = …;   (inside the bulk_transform lambda, `index` = the bulk index)")
     # chunk_end_it: `auto chunk_end_it = e0; if (c) { std::advance(chunk_end_it, a); } else { chunk_end_it = e1; }`
     e0, c, a, e1 = ex("chunk_end_init"), ex("chunk_end_cond"), ex("chunk_end_adv"), ex("chunk_end_else")
-    sc = dict(it_scope)
-    e1s = dict(it_scope); e1s["chunk_end_it"] = ("expr", e0)
     g.define("chunk_end_it", DI, ("ite", c, ("bin", "+", e0, a), e1), extra_scope={**it_scope, "chunk_end_it": ("expr", e0)},
              comment="auto chunk_end_it = …; if (…) { std::advance(chunk_end_it, …); } else { chunk_end_it = …; }   — value at the scan loop")
     g.define("scan_init", DI, ex("scan_init"), extra_scope=it_scope, comment="for (auto it = «scan_init»; …; …)")
@@ -491,8 +489,13 @@ def translate(repo, lean_dir, write=True):
     outdir = os.path.join(lean_dir, "UnifexModel", "Generated")
     os.makedirs(outdir, exist_ok=True)
     res = dict(changed=[], holes={})
+    errors = []
     for fn, gen in (("FindIfChunks.lean", gen_findif), ("BulkLoop.lean", gen_bulk)):
-        text, holes = gen(repo)
+        try:
+            text, holes = gen(repo)
+        except TranslateError as e:      # the other file is still regenerated; this one keeps its previous text
+            errors.append(str(e))
+            continue
         res["holes"][fn] = holes
         p = os.path.join(outdir, fn)
         old = open(p).read() if os.path.exists(p) else None
@@ -500,6 +503,8 @@ def translate(repo, lean_dir, write=True):
             res["changed"].append(fn)
             if write:
                 open(p, "w").write(text)
+    if errors:
+        raise TranslateError(" ;; ".join(errors))
     return res
 
 
